@@ -139,6 +139,16 @@ def directed():
                     'update': {'op': 'update', 't': 0, 'kvs': [[0, R.lit(6)]], 'form': 'kw', 'ev': 'first'}}[after])
         ops += R.probe_suffix(rng, src, 2, 2, rounds=1)
         yield R.mk_case(PROP, src0, [{'params': [dict(p) for p in R.STD], 'ctor': ctor}], ops)
+    # the rejected write goes into a *constant* linked parameter (written under edit_constant): afterwards the
+    # constant is as locked as before
+    for ref, bad in itertools.product((R.par(0, 0), R.fn([[0, 0], [1, 0]], 0)), (40, -7)):
+        src = [list(r) for r in src0]
+        ops = [{'op': 'srcSet', 's': 0, 'i': 0, 'v': bad, 'note': 'rejected-sync'},
+               {'op': 'set', 't': 0, 'p': 3, 'rhs': R.lit(9), 'note': 'rej:const'},
+               {'op': 'update', 't': 0, 'kvs': [[1, R.lit(2)], [3, R.lit(8)]], 'form': 'dict', 'note': 'rej:const:later'}]
+        src[0][0] = bad
+        ops += R.probe_suffix(rng, src, 2, 2, rounds=1)
+        yield R.mk_case(PROP, src0, [{'params': [dict(p) for p in R.STD], 'ctor': [[3, ref], [1, R.par(1, 0)]]}], ops)
 
 
 def cases(rng, tier, worker, nworkers):
